@@ -5,7 +5,7 @@ import sqlite3
 from dataclasses import dataclass
 from datetime import datetime, timedelta
 from typing import Iterable, Iterator, List, Optional, Tuple
-from contextlib import closing
+from contextlib import closing, contextmanager
 
 
 @dataclass(frozen=True)
@@ -420,6 +420,19 @@ class IDManager:
     def close(self):
         self.conn.close()
 
+    @contextmanager
+    def _snapshot(self):
+        """Makes all the reads inside the block see one committed state of the
+        database, even if other processes write to it in the meantime."""
+        if self.conn.in_transaction:
+            yield
+            return
+        self.conn.execute("BEGIN")
+        try:
+            yield
+        finally:
+            self.conn.commit()
+
     def get_info(self, id: int) -> Optional[ImageInfo]:
         id_space = IDSpace.from_id(id)
         namespace = id_space.namespace_name()
@@ -446,7 +459,8 @@ class IDManager:
         subspace: IDSubspace = IDSubspace(),
     ) -> List[ImageInfo]:
         if id_space is None:
-            spaces = [self.get_all(s, subspace) for s in IDSpace.all_values()]
+            with self._snapshot():
+                spaces = [self.get_all(s, subspace) for s in IDSpace.all_values()]
             return list(heapq.merge(*spaces, key=lambda x: x.atime, reverse=True))
 
         namespace = id_space.namespace_name()
@@ -477,7 +491,8 @@ class IDManager:
         subspace: IDSubspace = IDSubspace(),
     ) -> int:
         if id_space is None:
-            return sum(self.count(s, subspace) for s in IDSpace.all_values())
+            with self._snapshot():
+                return sum(self.count(s, subspace) for s in IDSpace.all_values())
 
         namespace = id_space.namespace_name()
         begin, end = id_space.subspace_masked_range(subspace)
@@ -689,7 +704,7 @@ class IDManager:
             )
 
     def get_upload_info(self, id: int, terminal: str) -> Optional[UploadInfo]:
-        with closing(self.conn.cursor()) as cursor:
+        with self._snapshot(), closing(self.conn.cursor()) as cursor:
             cursor.execute(
                 """
                 SELECT description, upload_time, size FROM upload
@@ -722,7 +737,7 @@ class IDManager:
         )
 
     def get_upload_infos(self, id: int) -> List[UploadInfo]:
-        with closing(self.conn.cursor()) as cursor:
+        with self._snapshot(), closing(self.conn.cursor()) as cursor:
             cursor.execute(
                 """
                 SELECT terminal FROM upload
@@ -747,10 +762,11 @@ class IDManager:
         max_bytes_ago: int = 20 * (2**20),
         max_time_ago: timedelta = timedelta(hours=1),
     ) -> bool:
-        info = self.get_info(id)
-        if info is None:
-            return False
-        upload_info = self.get_upload_info(id, terminal)
+        with self._snapshot():
+            info = self.get_info(id)
+            if info is None:
+                return False
+            upload_info = self.get_upload_info(id, terminal)
         if upload_info is None:
             return True
         return (
